@@ -135,7 +135,7 @@ func buildEngine(engine, variant string) string {
 	ov := ensureOverlay()
 	out := binPath(engine, variant)
 	os.MkdirAll(filepath.Dir(out), 0755)
-	tags := "verif"
+	tags := "verif,verifworker"
 	if variant != "" {
 		tags += "," + variant
 	}
@@ -149,7 +149,7 @@ func buildEngine(engine, variant string) string {
 	if err := cmd.Run(); err != nil {
 		die2("build of engine %s (tags %s) failed: %v\n%s", engine, tags, err, tail(buf.String(), 60))
 	}
-	fmt.Printf("built %s tags=%s in %.1fs\n", engine, tags, time.Since(start).Seconds())
+	fmt.Printf("built %s tags=%s in %.1fs\n", engine, strings.Replace(tags, ",verifworker", "", 1), time.Since(start).Seconds())
 	return out
 }
 
